@@ -429,6 +429,14 @@ pub fn run_case(ctx: &mut Ctx, fam: &str, k: u64, r: &mut Rng) {
                     d2[i] += 1;
                     let b = Array::from(d2.clone());
                     expect_panic(ctx, &format!("ragged nest of {:?} and {:?}", d, d2), move || Array::from(vec![a, b]));
+                    // the odd one out may sit anywhere among three to five children, and may have the right element count
+                    let m = r.range(3, 5);
+                    let odd = r.below(m);
+                    let same_count = n > 1 && d != vec![n];
+                    let kids: Vec<Array> = (0..m)
+                        .map(|i| if i != odd { arr(&d, &v) } else if same_count && r.chance(1, 2) { arr(&[n], &v) } else { Array::from(d2.clone()) })
+                        .collect();
+                    expect_panic(ctx, &format!("ragged nest of {} children of {:?}, child {} of another shape", m, d, odd), move || Array::from(kids));
                 }
                 4 => {
                     expect_panic(ctx, "empty nest Array::from(Vec::<Array>::new())", || Array::from(Vec::<Array>::new()));
